@@ -126,6 +126,9 @@ public:
         {
             m_resetFunctor(*iterator);
         }
+
+        // Nothing is in use after a reset...
+        m_numObjectsOnStack = 0;
     }
 
     // Functors for various operations...
